@@ -53,6 +53,11 @@ func vIsRel(c int) bool { return c == cR1 || c == cR2 }
 
 // vNewWorld registers pad dummy components first, so that the real ones get IDs pad..pad+5.
 func vNewWorld(capacity, relCapacity, pad int) *vWorld {
+	if pad == 60 && vthorough() {
+		// thorough tier: every world harness also runs with the six component IDs placed at the
+		// bottom of the mask, across the word 1/2 and word 2/3 boundaries and at the top
+		pad = []int{60, 0, 124, 188, 248}[vPick("component-id-placement", 5)]
+	}
 	W := &vWorld{w: NewWorld(capacity, relCapacity)}
 	W.u = W.w.Unsafe()
 	for i := 0; i < pad; i++ {
